@@ -27,7 +27,7 @@ JsonrpcFull == {Absent, "s_v20", "s_v10", "f2_0", "null", "a_empty"}
 IdFull      == {Absent, "null", "true", "false", "i0", "i1", "im1", "ibig", "f1_0", "f1_5",
                 "s_empty", "s_a", "s_1", "a_1", "o_a"}
 MethodFull  == {Absent, "null", "s_empty", "m_ok", "m_one", "m_perr", "m_exc", "m_unk", "i1", "true", "a_1", "o_a"}
-ParamsFull  == {Absent, "null", "a_empty", "a_1", "o_empty", "o_a", "a_deep", "o_deep", "i0", "s_a", "true", "f1_5"}
+ParamsFull  == {Absent, "null", "a_empty", "a_1", "o_empty", "o_a", "a_deep", "a_deep64", "o_deep", "i0", "s_a", "true", "f1_5"}
 NonObjShapes == {"null", "true", "i0", "i1", "f1_5", "s_empty", "s_a", "ibig"}
 NotJsonClasses == {"empty", "garbage", "truncated", "trailing_comma", "single_quotes", "bom", "two_values", "unquoted_key"}
 HugeClasses == {"in_params", "as_id", "bare", "in_batch"}
